@@ -4,7 +4,8 @@ blockstore.go, blockfinalize.go).  Executable, core Lean only.  Shared by C26–
 
 Blocks are `(id, parent, height, diff)`: `id` stands for the block hash, `parent` for the
 parent hash, `diff` for `difficulty.CalcWork(header.Difficulty)` (a non-negative integer).
-The functions mirror the Go code one to one:
+The functions mirror the Go code one to one (process.go as of fix a2015e1: FindFork before the
+side-chain test, a missing fork point refuses the block):
 
   processBlock        ProcessBlock + maybeAddBestChain
   maybeAcceptBlock    maybeAcceptBlock (+ dbMaybeStoreBlock, index.AddNode)
@@ -204,12 +205,13 @@ def connectBestChain (s : State) (b : Block) : State × Res :=
         match s.tds b.parent with
         | none => (s, .err .parentTdNoExist)
         | some ptd =>
-          if b.diff + ptd ≤ tiptd ∨ b.height < s.fin + s.margin then
-            -- (the debug line of this branch dereferences the fork node)
-            match findFork s b with
-            | none => (s, .err .panic)
-            | some _ => (s, .side)
-          else reorgTo s b (findFork s b)
+          -- `FindFork` first: a fork point that is no longer indexed refuses the block
+          -- (ErrParentBlockNoExist) in the side-chain and in the reorganize case alike
+          match findFork s b with
+          | none => (s, .err .parentNoExist)
+          | some f =>
+            if b.diff + ptd ≤ tiptd ∨ b.height < s.fin + s.margin then (s, .side)
+            else reorgTo s b (some f)
 
 /-- `dbMaybeStoreBlock`: skipped when the header is already stored; otherwise header/body and
 the total difficulty (parent's + own work) are written. -/
